@@ -42,6 +42,7 @@ func runC12(rc *RunCtx, variant string) *simkit.Violation {
 	const prop = "C12"
 	w := rc.W
 	t := w.W
+	defer drawCommitOpts(t)()
 	d := newDM(rc)
 	setup := w.Client("setup")
 	if v := createRepo(prop, d, setup, "r1"); v != nil {
